@@ -48,5 +48,26 @@ let () =
   | "json" -> each_line (fun l -> hex_of_bytes (json_encode (bytes_of_hex l)))
   | "jsondec" -> each_line (fun l -> match json_decode (bytes_of_hex l) with None -> "none" | Some b -> "some " ^ hex_of_bytes b)
   | "utf8" -> each_line (fun l -> if utf8_valid (bytes_of_hex l) then "1" else "0")
+  | "depfile" -> each_line (fun l ->
+      let lst xs = if xs = [] then "-" else String.concat "," (List.map hex_of_bytes xs) in
+      match parse_depfile (bytes_of_hex l) with
+      | DOk (o, i) -> "OK " ^ lst o ^ " " ^ lst i
+      | DErr ErrNoColon -> "ERR nocolon"
+      | DErr ErrInputsHaveInputs -> "ERR inputs"
+      | DOutOfFuel -> "ERR outoffuel")
+  | "depfile_idx" -> each_line (fun l -> let (_, n) = parse_depfile_idx (bytes_of_hex l) in string_of_int (int_of_nat n))
+  | "depfile_wf" -> each_line (fun l ->   (* <0|1 esc_colon> <name-hex> *)
+      match split_ws l with [c; n] -> if wf_gen (c = "1") (bytes_of_hex n) then "1" else "0" | _ -> "?")
+  | "depfile_render" -> each_line (fun l ->
+      (* <esc_colon 0|1> <layout: letters O C then modifiers r(crlf) t(trail)> rule;rule  with rule = t,t:d,d *)
+      match split_ws l with
+      | c :: lay :: rules ->
+        let base = if lay.[0] = 'C' then ContPerName else OneLine in
+        let lay' = ref base in
+        String.iteri (fun i ch -> if i > 0 then (if ch = 'r' then lay' := Crlf !lay' else if ch = 't' then lay' := TrailBlank !lay')) lay;
+        let names s = if s = "-" || s = "" then [] else List.map bytes_of_hex (String.split_on_char ',' s) in
+        let rule r = match String.split_on_char ':' r with [t; d] -> (names t, names d) | _ -> failwith "rule" in
+        hex_of_bytes (render_rules_gen (c = "1") !lay' (List.map rule rules))
+      | _ -> "?")
   | "canon_spec" -> each_line (fun l -> hex_of_bytes (canon_spec (bytes_of_hex l)))
   | c -> prerr_endline ("unknown component " ^ c); exit 2
